@@ -55,7 +55,8 @@ CLAIMS = {
             "adopts and persists the provider's position or hands the stored one to the provider, and a rejected cursor without a "
             "walk record requests a walk (_do_first_init); the walk record is written after the walk, as the last effect, and never "
             "after a stop that left objects unwalked (_do_walk_if_needed); a stop with unprocessed events does not move the stored "
-            "cursor; loading the state from storage rebuilds the indexes and the pending set by the running engine's own rules "
+            "cursor, which is persisted exactly when the provider's position moved; every step reconnects first and takes events in "
+            "exactly when the root is validated; named data (cursor, walk record) is written under its own tag, in place when a row exists; loading the state from storage rebuilds the indexes and the pending set by the running engine's own rules "
             "(found D11, fixed). 'Continues as if never stopped' over all histories is NOT proved.",
             "provider.events(), storage_update_data and state.update are contracts; sqlite3 is the relational model pyvc/sqlmodel.py."),
     "C07": ("proof", "Lemma-level proof of the effect ordering that makes every crash point recoverable: a sync step ends with exactly one "
@@ -109,7 +110,10 @@ CLAIMS = {
             "provider's truth, never changes the id, flags unseen changes and tombstones vanished objects; applying an event (no "
             "prior id) updates the entry already known under that id in place -- no second entry -- or indexes a new one, records id, "
             "path, hash, existence, flags the side changed and pending, and leaves the other side and all last-synced markers "
-            "untouched (SyncState.update + update_entry, 24 exhaustive cases). Independence of the final trees from event order is NOT proved.",
+            "untouched (SyncState.update + update_entry, 24 exhaustive cases); an ordinary event with an id is always applied, a walk "
+            "event is dropped exactly when the object is known with the same hash and path; a rename event with a prior id re-uses "
+            "the prior entry (no second entry); queued events are taken in first; get_latest re-reads a side exactly when forced or "
+            "stale. Independence of the final trees from event order is NOT proved.",
             "In the update lemma the index writers _change_oid/_change_path are their contracts (bodies proved in state_index.py); the prior_oid (rename) branch of update() is not under contract."),
     "C15": ("proof", "Proof of the lock discipline as a permission contract checked over the whole repository on every run: every public "
             "entry point either establishes state.lock before any write of sync state or is listed as a known finding (6 public API "
@@ -136,7 +140,7 @@ CLAIMS = {
     "C18": ("proof", "Proof. Back-off formula by induction over the failure count (base and step over reals); every iteration of "
             "Runnable.run from an arbitrary loop state: no exception of the work function escapes, the wait is the back-off law "
             "(reset after a productive success, kept after a no-op), cleanup runs exactly once iff the stop was final, the service "
-            "reports stopped; notification kinds. Stop/start races between threads are NOT claimed.",
+            "reports stopped; a service not asked to stop calls its work function; notification kinds. Stop/start races between threads are NOT claimed.",
             "The loop is verified by arbitrary-iteration abstraction with an inferred frame; the work function is an arbitrary callee with five outcome kinds."),
     "C19": ("exploration", "Bounded stand-in only: the coherence invariant (tree shape, id map = reachable nodes with ids, path<->id "
             "inverse) is an inductive predicate over a recursive structure that pyvc's first-order obligations cannot express; all "
@@ -146,7 +150,8 @@ CLAIMS = {
     "C20": ("proof", "Lemma-level proof. The smart pre-sync gate finishes an unrequested remote-only file without any transfer and lets "
             "requested entries, local files and folders through; un-request makes no call on the remote provider and its only write "
             "is a local delete of the object at the entry's local path, leaving the remote side unsynced rather than deleted; a "
-            "request adds to the request set and re-arms a vanished local copy. 'Never downloaded under every interleaving' is NOT proved.",
+            "request adds to the request set and re-arms a vanished local copy; the gate reports what the base pre-sync reported for "
+            "entries it lets through and notifies once for an entry it finishes. 'Never downloaded under every interleaving' is NOT proved.",
             "Base pre_sync is stubbed; request/exclude sets are abstract sets."),
 }
 
